@@ -186,6 +186,76 @@ def check_one(rec, coin, net, t, idx, script, cls, amounts, spks, hts):
                                                                   "cls": cls, "ht": "all"}, which, "unchanged")
 
 
+def checker_history(rec, rng, coin, net, t, amounts, spks):
+    """one SolutionChecker object queried repeatedly for different inputs / hash types / algorithms, with the
+    transaction edited in place between queries: every answer must be the digest of the transaction as it is now"""
+    import copy
+    t = copy.deepcopy(t)
+    tx = to_pycoin(net, t, amounts, spks)
+    sc = tx.SolutionChecker(tx)
+    log = []
+    for step in range(30):
+        r = rng.random()
+        if r < 0.25 and step:
+            # in-place edit of the live transaction (and of the reference copy)
+            what = rng.choice(["out_value", "out_script", "sequence", "lock_time", "version", "spent_amount", "outpoint"])
+            if what == "out_value" and t["outs"]:
+                j = rng.randrange(len(t["outs"]))
+                v = rng.randrange(1 << 40)
+                t["outs"][j]["value"] = v
+                tx.txs_out[j].coin_value = v
+            elif what == "out_script" and t["outs"]:
+                j = rng.randrange(len(t["outs"]))
+                sc_ = bytes(rng.randrange(256) for _ in range(rng.randrange(0, 30)))
+                t["outs"][j]["script"] = sc_
+                tx.txs_out[j].script = sc_
+            elif what == "sequence":
+                j = rng.randrange(len(t["ins"]))
+                v = rng.randrange(1 << 32)
+                t["ins"][j]["sequence"] = v
+                tx.txs_in[j].sequence = v
+            elif what == "lock_time":
+                v = rng.randrange(1 << 32)
+                t["lock_time"] = v
+                tx.lock_time = v
+            elif what == "version":
+                v = rng.randrange(1 << 32)
+                t["version"] = v
+                tx.version = v
+            elif what == "spent_amount":
+                j = rng.randrange(len(t["ins"]))
+                v = rng.randrange(1, 1 << 50)
+                amounts[j] = v
+                tx.unspents[j].coin_value = v
+            elif what == "outpoint":
+                j = rng.randrange(len(t["ins"]))
+                v = rng.randrange(1 << 32)
+                t["ins"][j]["index"] = v
+                tx.txs_in[j].previous_index = v
+            log.append(("edit", what))
+            rec.ev("history_edit")
+            continue
+        idx = rng.randrange(len(t["ins"]))
+        ht = rng.choice([1, 2, 3, 3, 0x81, 0x82, 0x83, 0x41, 0x43, 0xc3, rng.randrange(256)])
+        algo = rng.choice(["legacy", "segwit"])
+        script, cls = gen_script_code(rng) if rng.random() < 0.3 else (b"\x76\xa9\x14" + bytes(20) + b"\x88\xac", "p2pkh")
+        kind, want = expected(coin, t, idx, script, amounts[idx], ht, algo)
+        fn = sc._signature_hash if algo == "legacy" else sc._signature_for_hash_type_segwit
+        st, got = observe(fn, script, idx, ht)
+        log.append((algo, idx, ht))
+        rec.ev("history_query")
+        rec.case((coin, "hist", step, idx, ht, algo, txser.serialize(t)), nontrivial=True)
+        case = {"coin": coin, "algo": algo, "tx": t, "idx": idx, "script": script, "cls": cls, "amounts": list(amounts), "spks": spks, "ht": ht,
+                "history": log[-12:]}
+        if kind == "refuse":
+            if st == "ok":
+                rec.violation("%s.accepts_hashtype_without_forkid" % coin.lower(), case, got, "refusal")
+        elif st != "ok":
+            rec.violation("%s.%s.raises.%s" % (coin.lower(), algo, type(got).__name__), case, got, want)
+        elif got != want:
+            rec.violation("%s.%s.stateful_digest_mismatch" % (coin.lower(), algo), case, got, want)
+
+
 def run_direct(spec, rec):
     rng = shard_rng(spec["seed"], PROPERTY, spec["tier"], spec["shard"])
     coin = spec["coin"]
@@ -197,6 +267,7 @@ def run_direct(spec, rec):
         amounts = [rng.choice([0, 1, (1 << 63) - 1, (1 << 64) - 1, 600000000]) for _ in t["ins"]]
         spks = [b"\x51" for _ in t["ins"]]
         check_one(rec, coin, net, t, idx, script, cls, amounts, spks, range(256))
+        checker_history(rec, rng, coin, net, t, list(amounts), spks)
         if k < 1:
             rec.sample({"coin": coin, "n_in": len(t["ins"]), "n_out": len(t["outs"]), "idx": idx, "script_class": cls, "script": script[:40],
                         "hash_types": "0..255", "version": t["version"], "lock_time": t["lock_time"]})
@@ -255,7 +326,7 @@ def run_shard(spec, rec):
         rec.require("suite.sighash.legacy", "suite.sighash.segwit")
         suite.run_suite(spec, rec, ["suite.sighash"], "suite.sighash.legacy")
         return
-    rec.require("_signature_hash", "_signature_for_hash_type_segwit", "purity_checks") if spec["kind"] == "direct" else None
+    rec.require("_signature_hash", "_signature_for_hash_type_segwit", "purity_checks", "history_query") if spec["kind"] == "direct" else None
     if spec["kind"] == "direct":
         run_direct(spec, rec)
     else:
